@@ -76,7 +76,7 @@ def write_mc(dirpath, name, conf, consts, invariants, spec="SpecU", export=True,
         for c in ("WLOCK", "SPIN", "WAITING", "DESIG", "CONDB", "WRW", "LONGW", "ALLF", "RLOCK", "WZLO", "RZLO"):
             f.write("  %s = %d\n" % (c, consts[c]))
         f.write("  WZHI = %s\n  RZHI = %s\n" % (tla_val(consts["WZHI"]), tla_val(consts["RZHI"])))
-        f.write("  defaultInitValue = 0\n")
+        f.write("  defaultInitValue = defaultInitValue\n")
         for i in invariants:
             f.write("INVARIANT %s\n" % i)
         for p in props:
